@@ -95,8 +95,13 @@ def Bound.small (b : Bound) : Bool :=
   | .float d => d.fits34
   | _ => true
 
-def Constraint.small : Constraint → Bool
+/-- The constraints the theorems speak about: bounds outside the defect region, and basic types
+with a non-empty kind mask (the only ones CUE source can express). -/
+def Constraint.regular : Constraint → Bool
   | .bound b => b.small
+  | .type k => k != 0
   | _ => true
+
+def Regular (cs : List Constraint) : Prop := ∀ c ∈ cs, c.regular = true
 
 end CueVerif.Scalar
